@@ -359,7 +359,25 @@ impl Case {
     /// how long an event may take before it is reported as still running ([8]): in probe schedules a thread is stopped while it
     /// holds a lock, so other threads are expected to block on it
     fn step_timeout(&self) -> Duration {
-        if self.cfg.points == "probe" { Duration::from_millis(300) } else { STEP_TIMEOUT }
+        if self.cfg.points == "probe" { Duration::from_millis(800) } else { STEP_TIMEOUT }
+    }
+
+    /// probe schedules only: a thread that had not reached its schedule point within the step timeout when it was started
+    /// (a loaded machine) may have arrived since, or be about to
+    fn late_arrival(&self, role: Role) -> bool {
+        if self.cfg.points != "probe" { return false; }
+        let in_progress = |c: &Case| match role {
+            Role::Sweeper => c.ctl.sweeps_done() <= c.sweeps_before && !matches!(c.ctl.role_state(Role::Sweeper), RoleState::Dead(_) | RoleState::Exited),
+            _ => matches!(c.ctl.role_state(role), RoleState::Running),
+        };
+        if !in_progress(self) && self.ctl.at_point(role).is_none() { return false; }
+        let deadline = std::time::Instant::now() + Duration::from_secs(3);
+        while std::time::Instant::now() < deadline {
+            if let Some(label) = self.ctl.at_point(role) { if self.interesting(label, "") { return true; } self.ctl.step_point(role); }
+            if !in_progress(self) { return false; }
+            thread::sleep(Duration::from_micros(200));
+        }
+        false
     }
 
     /// waits until the sweeper is stopped at a schedule point, has finished its sweep, or the time is up
@@ -574,6 +592,7 @@ impl Case {
                 }
             }
             "runs" => {
+                if !self.sweeper_at_point && self.late_arrival(Role::Sweeper) { self.sweeper_at_point = true; }
                 if !self.sweeper_at_point { skipped = true; } else {
                     self.ctl.step_point(Role::Sweeper);
                     thread::sleep(Duration::from_micros(100));
@@ -630,6 +649,7 @@ impl Case {
                 }
             }
             "runw" => {
+                if !self.worker_at_point && self.late_arrival(Role::Worker) { self.worker_at_point = true; }
                 if !self.worker_at_point { skipped = true; } else {
                     self.ctl.step_point(Role::Worker);
                     ret = self.wait_worker_point();
